@@ -289,7 +289,7 @@ func (r *Run) Finish(level string) int {
 	cv["paths_completed"] = completed
 	cv["paths_inconclusive"] = inc
 	cv["solver"] = map[string]interface{}{
-		"cmd": "z3 -in (4.8.12), QF_BV terms, one process per worker",
+		"cmd":     "z3 -in (4.8.12), QF_BV terms, one process per worker",
 		"queries": sv.Queries, "sat": sv.Sat, "unsat": sv.Unsat, "unknown": sv.Unknown,
 		"errors": sv.Errors, "seconds": round3(sv.Seconds),
 	}
@@ -476,10 +476,10 @@ func tail(s string, n int) string {
 
 // RunBash runs a script with /bin/bash in an empty directory and environment.
 type BashResult struct {
-	Stdout string
-	Stderr string
-	Code   int
-	Files  map[string]string
+	Stdout  string
+	Stderr  string
+	Code    int
+	Files   map[string]string
 	Timeout bool
 }
 
